@@ -44,6 +44,9 @@ def run(chk):
     c10.write_event_rule(chk, P, "C07.R5:write_event")
     from . import shapes
     shapes.trigger_starts_unset(chk, P, "C07.R4:trigger-starts-unset")
+    from . import c01
+    c01.and_flush_rule(chk, P, "C07.R6:And::blocking_flush")
+    shapes.retry_when_nonempty(chk, P, "C07.R3:retry-when-nonempty")
     return chk
 
 
